@@ -107,8 +107,8 @@ def tmr_inst(name, P, K, isr, ops=None, tmax=7, weight=1):
     if ops is not None:
         defs['OPSEQ'] = '{' + ','.join(str(o) for o in ops) + '}'
     return Inst(name, 'tmr_bmc.c', defs, unwind=max({0: 0, 1: 26, 2: 12}[isr], K + 2, tmax + 3, 10),
-                unwindset={'COTmrDelete': b, 'COTmrProcess': b if isr < 2 else b + 1, 'COTmrInsert': b, 'COTmrRemove': b + 1, 'COTmrReset': P + 1,
-                           'check_pools': P + 2, 'CoVerifTmrPool': P + 1},
+                unwindset=dict({'COTmrDelete': b, 'COTmrProcess': b if isr < 2 else b + 1, 'COTmrInsert': b, 'COTmrRemove': b + 1, 'COTmrReset': P + 1,
+                                'check_pools': P + 2, 'CoVerifTmrPool': P + 1}, **({'check_due': max(P + 2, K + 1)} if isr == 0 else {})),
                 types=[], fp_override={'COTmrProcess.function_pointer_call.1': ['cb']}, weight=weight, objbits=9,
                 harness_only=['P', 'K', 'ISR', 'TMAX', 'OPSEQ', 'NPRE'], family='tmr_bmc',
                 bounds='timer pool %d (separate blocks), operation kinds %s, arguments symbolic, times 0..%d ticks%s' % (
@@ -269,6 +269,10 @@ def c03(tier):
         # one instance per size class with the size symbolic inside the class
         for ns in range(0, 3):
             out.append(sdo_xfer_inst(2, t, 2, dom=14, nseg=ns))
+        # upload as the first thing after ANY earlier traffic: arbitrary idle left-overs (toggle bit, offsets, counters)
+        for ns, f in ((0, 3), (1, 6), (2, 3)):
+            out.append(sdo_xfer_inst(2, t, 2, pre=11, ptgt=t, dom=14, nseg=ns, fill=f))
+        out.append(sdo_xfer_inst(4, t, 2, pre=11, ptgt=t, dom=14, ubl=4, nseg=2, bs=2, ak=(1,), fill=3))
     for N in ((2,) if tier == 'quick' else (2, 3, 4)):
         for t in (6, 7):
             for ns, f in sizes:
@@ -289,7 +293,7 @@ def c03(tier):
                             continue
                         ubl = len(ak) + segs + 1
                         out.append(sdo_xfer_inst(4, t, N, dom=dom, nseg=ns, bs=bs, bs2=bs2, ak=ak, ubl=ubl, fill=f))
-                # a new block size announced inside a partial acknowledge
+                # (see below) a new block size announced inside a partial acknowledge
                 if t == 6 and segs >= 2 and (tier != 'quick' or f in (1, 7)):
                     for bs, bsp in ((2, 1), (1, 2), (2, 127)) + (((3, 1), (3, 2), (1, 3)) if N >= 3 else ()):
                         ebs = min(bs, N)
@@ -301,6 +305,9 @@ def c03(tier):
 
 def c05(tier):
     out = []
+    # the lemma C05 rests on: the server invariant is inductive for the block phases (a server-side abort must not
+    # leave block state behind), N=2
+    out += [i for i in sdo_step_insts('quick') if '_n2_' in i.name and ('_ph2_' in i.name or '_ph3_' in i.name or '_ph4_' in i.name)]
     for pre in range(1, 12):
         for xf, t in ((0, 2), (1, 6), (2, 6), (2, 7), (3, 6), (4, 6), (4, 7)):
             out.append(sdo_xfer_inst(xf, t, 2, pre=pre, dom=14, ubl=4, nseg=2, bs=2, fill=0 if xf == 0 else 3, ak=(1,) if xf == 4 else ()))
